@@ -3,7 +3,7 @@ CHECKS["C20"] = dict(
     rule="environment enumeration (E-E): get_random01, the domain test and the batched objective are scripted/logging callbacks; a state = (configuration, program prefix, consumed answer prefix) at which "
          "ParticleSwarmState was observed through its getters; a transition = one callback answer; every answer string within the bound x every splitting of the iteration count x every state edit is executed "
          "on the real ParticleSwarm (forked, ASan+UBSan); best positions are judged against the set of logged in-domain visits, a reference model of the bookkeeping and of the classic velocity update is stepped on the logged values, "
-         "split calls are compared bitwise with the single call; distinct = digests of (configuration, final positions, velocities, best positions)",
+         "split calls are compared bitwise with the single call; every one-iteration answer string and every run;edit;run program is executed again through the raw-array overloads of the setters/getters and through the C interface (tsgParticleSwarmState_*, tsgParticleSwarm) and must be the identical execution; distinct = digests of (configuration, final positions, velocities, best positions)",
     assumptions=COMMON_ASSUME + [
         "cached objective values are private: their coherence is judged through the best positions they produce in later calls",
         "a best position is 'visited' if it was a particle position passed to the domain test inside the domain since the bests were last reset by the user, or a user-supplied best that the library evaluated",
